@@ -109,9 +109,9 @@ def run(ck):
     # (b) every component accepting css-class
     facts = vlib.load_facts()
     css = ".kk { color: red; font-size: 9px }\n.jj{margin:1px}"
-    tags = [t for t, a in sorted(facts["allowed_table"].items()) if "css-class" in a and t in facts["factory_tags"]]
-    if "mj-wrapper" not in tags:
-        tags.append("mj-wrapper")      # no entry in the attribute table, but it honours css-class
+    # css-class is a global attribute (the per-tag table does not list it): every component of the body takes it
+    NOT_BODY = {"mjml", "mj-head", "mj-title", "mj-preview", "mj-font", "mj-style", "mj-breakpoint", "mj-attributes", "mj-all", "mj-class", "mj-raw"}
+    tags = [t for t in sorted(facts["factory_tags"]) if t not in NOT_BODY]
     docs = []
     SEC = lambda: N("mj-section", kids=[N("mj-column", kids=[N("mj-text", text="t")])])
 
@@ -155,7 +155,8 @@ def run(ck):
     for i, (t, d) in enumerate(docs):
         a, b = res2.get(2 * i), res2.get(2 * i + 1)
         c_ = css if not t.startswith("built-in-class") else ".mj-column-per-50 { color: red; font-size: 9px }"
-        reqs.append(("inlinerelaxed", (c_.encode(), body_of((a or {}).get("html", "")).encode(), body_of((b or {}).get("html", "")).encode())))
+        unid = lambda h: re.sub(r"[0-9a-f]{16}", "ID", h)      # mj-carousel draws a fresh id per compilation
+        reqs.append(("inlinerelaxed", (c_.encode(), unid(body_of((a or {}).get("html", ""))).encode(), unid(body_of((b or {}).get("html", ""))).encode())))
     o2 = vlib.model_run(mr, reqs)
     for i, (t, d) in enumerate(docs):
         a, b = res2.get(2 * i), res2.get(2 * i + 1)
@@ -164,6 +165,8 @@ def run(ck):
             continue
         if o2[i] != "EQ":
             kid = "class-site-not-inlined:" + t
+            if kid not in known and "class-site-not-inlined:" + t.split("[")[0] in known:
+                kid = "class-site-not-inlined:" + t.split("[")[0]       # a variant of a component none of whose variants opts in
             if kid in known:
                 if kid not in announced:
                     announced.add(kid)
